@@ -15,6 +15,8 @@ type Handle struct {
 	Kind  string
 	Ord   int
 	probe int
+	// SeenComponents / SeenScanners: what a processor's component-factory hook found registered.
+	SeenComponents, SeenScanners int
 	// OrdFinal, if set, replaces Ord once the instance's initialization callback has run.
 	OrdFinal *int
 	C        *Ctx
